@@ -1,0 +1,80 @@
+//go:build verif
+
+package ranges
+
+// Contracts for the goverif VC generator (/verif). Comment-only file: it adds no code.
+
+// ---- C17: index ranges [s..e] ----------------------------------------------------------------------------
+// The matcher counts in rf.i; the ghost $seen counts the elements of the stream that were offered to
+// the range filter (blank elements dropped by the `b` flag are not offered). Element number n is
+// $seen+1 when the callback of readArray runs for it.
+//@ type rfIndex ghost seen int
+//@ type rfIndex ghost done bool
+
+//@ func (*rfIndex).Start [C17]
+//@   requires rf != nil
+//@   modifies rf.i
+//@   ensures rf.i == old(rf.i) + 1 && result == (rf.i > rf.start)
+
+//@ func (*rfIndex).End [C17]
+//@   requires rf != nil
+//@   modifies rf.i
+//@   ensures imp(rf.end > -1, rf.i == old(rf.i) + 1 && result == (rf.i > rf.end))
+//@   ensures imp(rf.end <= -1, rf.i == old(rf.i) && !result)
+
+//@ func (*rfIndex).SetLength [C17]
+//@   requires rf != nil
+//@   modifies rf.start, rf.end
+//@   ensures rf.start == old(rf.start) + i + 1 && rf.end == old(rf.end) + i + 1
+
+// createRfIndex: s = the start number (0 if omitted), e = the end number (-1 if omitted); a positive start
+// of an inclusive range moves the end by one (the start element is counted twice by the matcher).
+//@ spec $rfS(start string) int = ite(start == "", 0, $atoi(start))
+//@ spec $rfE(end string) int = ite(end == "", -1, $atoi(end))
+//@ func createRfIndex [C17]
+//@   requires r != nil
+//@   modifies r.Buffer
+//@   ensures imp(result1 == nil, result != nil && fresh(result) && result.i == 0)
+//@   ensures imp(result1 == nil, result.start == $rfS(r.Start))
+//@   ensures imp(result1 == nil, result.end == ite($rfS(r.Start) < 0 && r.End == "", 1, ite($rfS(r.Start) > 0 && !r.Exclude, $rfE(r.End) + 1, $rfE(r.End))))
+//@   ensures imp(result1 == nil, r.Buffer == (old(r.Buffer) || $rfS(r.Start) < 0))
+//@   ensures imp(result1 == nil, imp(r.Start != "", $atoiOk(r.Start)) && imp(r.End != "", $atoiOk(r.End)))
+
+// newIndex installs the matcher: the element number at which output starts is start+1 = s, and the
+// matcher's end is e (inclusive range with a start), e-1 (no start, or exclusive).
+//@ func newIndex [C17]
+//@   requires r != nil
+//@   modifies r.Buffer, r.Match
+//@   ensures imp(result == nil, typeis(r.Match, *rfIndex) && unbox(r.Match, *rfIndex) != nil && fresh(unbox(r.Match, *rfIndex)))
+//@   ensures imp(result == nil, unbox(r.Match, *rfIndex).i == 0 && unbox(r.Match, *rfIndex).start == $rfS(r.Start) - 1)
+//@   ensures imp(result == nil, unbox(r.Match, *rfIndex).end == ite($rfS(r.Start) < 0 && r.End == "", 0, ite($rfS(r.Start) > 0 && !r.Exclude, $rfE(r.End), $rfE(r.End) - 1)))
+//@   ensures imp(result == nil, r.Buffer == (old(r.Buffer) || $rfS(r.Start) < 0))
+
+// ---- the per-element step of readArray ---------------------------------------------------------------------
+// For element number n (= $seen+1) of an index range whose matcher has start S and end E:
+//   it passes the start test iff the filter had started before or n >= S+1, and with the `e` flag the
+//   element that starts the range is dropped;
+//   the end is hit iff an end was given, E > -1 and n >= E (inclusive range with a start) / n >= E+1;
+//   the element is written iff it passes the start test and (end hit: the range is inclusive; else: the
+//   command is not negated). Once the end is hit the context is cancelled ($done) and no further
+//   element is offered (trusted: every ReadArray implementation polls the context before each callback).
+//@ spec $rfPass(st0 bool, n int, S int, X bool) bool = (st0 || n >= S + 1) && !(X && !st0 && n >= S + 1)
+//@ spec $rfEndHit(hasS bool, hasE bool, X bool, E int, n int) bool = hasE && E > -1 && n >= ite(hasS && !X, E, E + 1)
+//@ func readArray$2 [C17]
+//@   check none
+//@   dispatch (builtins/core/ranges.rangeFuncs) *rfIndex
+//@   requires r != nil && p != nil && typeis(r.Match, *rfIndex) && unbox(r.Match, *rfIndex) != nil
+//@   requires !r.RmBS && !r.TrimSpace && !unbox(r.Match, *rfIndex).$done
+//@   requires imp(!started, r.Start != "" && unbox(r.Match, *rfIndex).i == unbox(r.Match, *rfIndex).$seen)
+//@   requires imp(started && r.End != "" && unbox(r.Match, *rfIndex).end > -1, unbox(r.Match, *rfIndex).i == ite(r.Start != "" && !r.Exclude, unbox(r.Match, *rfIndex).$seen + 1, unbox(r.Match, *rfIndex).$seen))
+//@   at call dynamic:write#* modifies nothing
+//@   at call dynamic#* modifies nothing
+//@   at call dynamic:write#* assert arg0 == old(b)
+//@   ghost at return: unbox(r.Match, *rfIndex).$seen = old(unbox(r.Match, *rfIndex).$seen) + ite(r.StripBlank && len(b) == 0, 0, 1)
+//@   ghost at return: unbox(r.Match, *rfIndex).$done = !(r.StripBlank && len(b) == 0) && $rfPass(old(started), old(unbox(r.Match, *rfIndex).$seen) + 1, unbox(r.Match, *rfIndex).start, r.Exclude) && $rfEndHit(r.Start != "", r.End != "", r.Exclude, unbox(r.Match, *rfIndex).end, old(unbox(r.Match, *rfIndex).$seen) + 1)
+//@   ensures imp(!started, r.Start != "" && unbox(r.Match, *rfIndex).i == unbox(r.Match, *rfIndex).$seen)
+//@   ensures imp(started && r.End != "" && unbox(r.Match, *rfIndex).end > -1, unbox(r.Match, *rfIndex).i == ite(r.Start != "" && !r.Exclude, unbox(r.Match, *rfIndex).$seen + 1, unbox(r.Match, *rfIndex).$seen))
+//@   ensures unbox(r.Match, *rfIndex).start == old(unbox(r.Match, *rfIndex).start) && unbox(r.Match, *rfIndex).end == old(unbox(r.Match, *rfIndex).end)
+//@   ensures imp(!(r.StripBlank && len(b) == 0), started == (old(started) || old(unbox(r.Match, *rfIndex).$seen) + 1 >= unbox(r.Match, *rfIndex).start + 1))
+//@   ensures called("dynamic:write") == (!(r.StripBlank && len(b) == 0) && $rfPass(old(started), old(unbox(r.Match, *rfIndex).$seen) + 1, unbox(r.Match, *rfIndex).start, r.Exclude) && ite($rfEndHit(r.Start != "", r.End != "", r.Exclude, unbox(r.Match, *rfIndex).end, old(unbox(r.Match, *rfIndex).$seen) + 1), !r.Exclude, !p.IsNot))
+//@   ensures called("dynamic") == unbox(r.Match, *rfIndex).$done
